@@ -54,15 +54,18 @@ CHECKS = {
                   'token-level frame contracts on the public API',
         ref='DESIGN.md section 4 C04'),
     'C05': dict(
-        category='exploration',
-        text='Bounded: every corpus program (thorough: + standard-library modules) built with FST(src) keeps its '
-             'source and equals ast.parse (own comparator incl. positions); expression / statement / pattern / arg / '
-             'keyword / handler fragments cut out with ast.get_source_segment and parsed in the matching mode equal the '
-             'sub-tree of the enclosing parse with positions rebased; a table of texts invalid for each mode must be '
-             'rejected or be valid in the mode\'s natural embedding. The structural wrapper-offset obligations of '
-             'DESIGN C05/P are not registered in this revision.',
-        note='Bounded runtime contracts; oracle: CPython ast.parse of the enclosing construct. Nothing proved.',
-        technique='bounded runtime contracts on FST()/parse modes with CPython as oracle; not a proof',
+        category='proof',
+        text='Proof of the wrapper discipline of the extended parse modes: for each of the ~80 wrapper call sites of '
+             'parsex.py the literal prefix before {src} ends with a newline (the fragment starts in column 0 of its own '
+             'line, so its columns are unchanged for EVERY src, multi-byte text included) and the number of prefix '
+             'newlines equals minus the delta of _offset_linenos in that function (structural obligations over the '
+             'current source); _offset_linenos shifts exactly lineno/end_lineno of positioned nodes (symbolic). That '
+             'the wrappers accept exactly the valid fragments and equal CPython\'s sub-tree is bounded: corpus / stdlib '
+             'fragments and an embedding-oracle fragment table per mode.',
+        note=TB + 'Structural route: obligations are properties of the program text, listed separately in evidence '
+             '(by_route.structural). ' + BND,
+        technique='contract-based verification: structural (all-inputs) obligations on the parse wrappers + symbolic '
+                  'proof of _offset_linenos + bounded embedding-oracle contracts with CPython as oracle',
         ref='DESIGN.md section 4 C05'),
     'C06': dict(
         category='proof',
